@@ -103,7 +103,7 @@ Strengthening done because of seeded changes (see also section 8):
 * **C11 (mut C11-b: ForEachBlockPass forms the sub-circuit of a block from
   the parameters stored inside the CircuitGate instead of the operation's).**
   Every generated block carried the stored parameters, for which the two
-  coincide. The generator now re-parameterises 40% of the parameterised blocks
+  coincide. The generator now re-parameterises 40%% of the parameterised blocks
   (what `set_params`/`instantiate` on a partitioned circuit produces); the
   oracle was already written against the operation's parameters. Required
   counter `blocks_with_params_differing_from_stored_ones`.
